@@ -139,6 +139,20 @@ def main():
         return fail(clause=6, what="send_headers after GOAWAY did not raise")
     except h2.exceptions.ProtocolError:
         pass
+    # (7) connection-level preface calls: fine on an open machine, refused (ProtocolError) on a closed one
+    c = h2.connection.H2Connection(config=h2.config.H2Configuration(client_side=True, validate_inbound_headers=False))
+    try:
+        c.initiate_connection()
+        c.increment_flow_control_window(2 ** 24)
+    except Exception as e:  # noqa: BLE001
+        return fail(clause=7, what="preface calls raised on an open connection", exc=repr(e))
+    c.close_connection()
+    for call in (lambda: c.initiate_connection(), lambda: c.increment_flow_control_window(2 ** 24)):
+        try:
+            call()
+            return fail(clause=7, what="preface call accepted on a closed connection")
+        except h2.exceptions.ProtocolError:
+            pass
     print(json.dumps({"audit": "h2_contract", "result": "held", "explored": len(cuts) + 12, "bound": "1 scripted 12-frame conversation x (all single cuts + 300 seeded multi-cuts + byte-by-byte) + 12 point checks of window / id / queue / ack / GOAWAY clauses", "seed": SEED}))
     return 0
 
